@@ -127,6 +127,29 @@ def inf_format(p, res):
     res.require_floor(30)
 
 
+@rule('INF-FMTREADERS', 'D', 'the indent-based formatter (haml / pug / slim) never reads output.format: its line breaks and indentation are the nesting syntax')
+def inf_fmtreaders(p, res):
+    readers = {}
+    for f in p.funcs.values():
+        for n in f.body_nodes():
+            if is_option_read(p, f, n, {'output.format'}):
+                readers.setdefault(f.short, []).append((f, n))
+    res.stats['readers_of_output.format'] = sorted(readers)
+    if not readers:
+        res.undecided('readers of output.format', 'the html formatter is expected to read it')
+    for name, sites in sorted(readers.items()):
+        f, n = sites[0]
+        if f.module.name.startswith('emmet.markup.format.indent_format'):
+            res.bad(F('INF-FMTREADERS', f, n, src_of(n), 'the indent-based formatter consults output.format: with formatting switched off elements lose their own lines, and in haml / pug / slim the line structure is the tree'))
+        else:
+            res.ok('%s reads output.format' % name)
+    n_indent = sum(1 for f in p.funcs.values() if f.module.name.startswith('emmet.markup.format.indent_format'))
+    res.ok('%d functions of the indent-based formatter scanned' % n_indent)
+    if n_indent < 5:
+        raise AnalysisError('INF-FMTREADERS: indent formatter module has %d functions' % n_indent)
+    res.require_floor(2)
+
+
 @rule('INF-LEVEL', 'D', 'the indentation level counts open elements: what an element adds to the level does not depend on whether it is itself put on a new line')
 def inf_level(p, res):
     # html.element: level = get_indent(state); indent_format.element: level = 1 if state.parent else 0
@@ -164,6 +187,32 @@ def inf_level(p, res):
                       'what an element adds to the indentation level must be %s, not a constant' % want[0]))
         else:
             res.undecided('%s: %s = %s' % (f.short, var, ' | '.join(src_of(d) for d in defs if d is not None)), 'expected %s' % want[0])
+    # every line break is indented by the *absolute* level: push_newline receives True (= the current level), or an expression in
+    # <stream>.level; a local offset (what this element adds: 0 / 1) is not a level
+    from ..linear import linear as _lin
+    from .. import shape as _shape
+    for fq in ('markup.format.html.element', 'markup.format.indent_format.element', 'markup.format.indent_format.push_value', 'stylesheet.format.stringify'):
+        try:
+            g = p.func(fq)
+        except AnalysisError:
+            continue
+        gdefs = _shape.defs_of(g.node, params=g.params)
+        for c in g.body_nodes():
+            if not (isinstance(c, ast.Call) and isinstance(c.func, ast.Attribute) and c.func.attr == 'push_newline' and c.args):
+                continue
+            a = _shape.expand(c.args[0], gdefs)
+            cv = p.try_const(g, a)
+            mentions_level = any(isinstance(x, ast.Attribute) and x.attr == 'level' for x in ast.walk(a))
+            if cv is True or isinstance(a, (ast.Compare, ast.BoolOp)) or (isinstance(a, ast.Name) and a.id in g.params):
+                res.ok('%s: %s (current level)' % (g.short, src_of(c)))
+            elif mentions_level:
+                res.ok('%s: %s (absolute level)' % (g.short, src_of(c)))
+            elif isinstance(cv, int) and not isinstance(cv, bool):
+                res.bad(F('INF-LEVEL', g, c, src_of(c), 'the line is indented by the constant %d instead of the current nesting level' % cv))
+            elif isinstance(a, ast.Call) and isinstance(a.func, ast.Name) and a.func.id == 'get_indent' or (isinstance(a, ast.IfExp) and all(isinstance(p.try_const(g, x), int) for x in (a.body, a.orelse))):
+                res.bad(F('INF-LEVEL', g, c, src_of(c), 'the line is indented by what this element adds to the level (`%s`, 0 or 1), not by the absolute level: from depth 2 on the line is under-indented' % src_of(a)))
+            else:
+                res.undecided('%s: %s' % (g.short, src_of(c)), 'push_newline(True) or push_newline(<stream>.level ..) expected')
     from .tablecheck import check_table
     check_table(p, res, 'INF-LEVEL', 'markup.format.html.get_indent', 'get_indent must be 0 for top level / snippet parent / formatSkip parent and 1 otherwise')
     # closing line: after the last formatted child the parent's closing tag goes on its own line one level up
